@@ -506,7 +506,7 @@ def main(ctx):
     if regen_ok:
         ctx.obligation("tie:C05_NumSites+C05_Shapes regenerated", "tie", True, "; ".join(ctx.stats.get("extract", [])))
     t_build = time.time() - ctx.t0
-    names = ctx.audit("GojaModel.C05.Props", expect_min=55)
+    names = ctx.audit("GojaModel.C05.Props", expect_min=60)
     tie_errs = [e for e in errs if os.path.basename(e["file"]) == "Tie.lean" or "Generated" in e["file"]]
     tie_bad = {e["decl"] for e in tie_errs}
     for t in ("numSites_ok", "wrappers_ok", "wrappers_canonical", "maxInt_tie", "whitespace_tie", "canonicalisers_tie", "conversions_tie",
